@@ -160,3 +160,13 @@ def run(ctx):
                f.loc(ifn), sites=1, instance='%s:%s' % (f.name, txt), path=path)
   ctx.hold('C20.total', con, '%d raise-guards examined in %d functions reachable from clear_config; those listed as failing '
            'obligations (if any) read configuration state' % (n_guards, len(reach)), cc.loc(), sites=n_guards, instance='swept')
+  from .common import lock_order
+  lock_order(ctx, 'C20.total')
+  # constants survive *as the same objects*: the saved copy holds the values by identity
+  sm_copy = sm.methods.get('copy')
+  vm = [a for a in walk_local(sm_copy.node) if isinstance(a, ast.Assign) and isinstance(a.targets[0], ast.Attribute) and a.targets[0].attr == '_selector_map']
+  from ..lib import copy_kind
+  ok = bool(vm) and all(copy_kind(a.value) == 'SHALLOW' for a in vm)
+  ctx.check(ok, 'C20.complete', 'gin/selector_map.py::SelectorMap.copy', 'the saved constants keep the stored objects themselves (value map copied shallowly)',
+            'SelectorMap.copy does not keep the stored objects themselves (`%s`): constants re-inserted by clear_config() are copies, and a value that cannot be '
+            'deep-copied makes clear_config() raise half-way' % [u(a.value) for a in vm], sm_copy.loc(), instance='constants-identity')
